@@ -19,6 +19,7 @@
 import JdProofs.MapOrder
 import JdProofs.PathSites
 import JdProofs.PathHeapProofs
+import JdProps.C15Heap
 
 namespace Jd.Props.C15
 open Jd Jd.MapOrder
